@@ -1530,6 +1530,10 @@ pub fn gen_rrset(r: &mut Rng, _i: u64) -> String {
             a.data = gen_data(r, a.rtype, true);
         }
     }
+    // names inside the data stay within 255 octets (the messages with ground truth are well-formed)
+    for a in answers.iter_mut() {
+        a.data = super::truth::legalize_data(a.data.clone());
+    }
     // shuffle answers sometimes
     if r.chance(1, 2) {
         for i in (1..answers.len()).rev() {
@@ -1546,7 +1550,7 @@ pub fn gen_rrset(r: &mut Rng, _i: u64) -> String {
                 rtype: want,
                 rclass: qclass,
                 ttl: 1,
-                data: gen_data(r, want, true),
+                data: super::truth::legalize_data(gen_data(r, want, true)),
                 rdlen_delta: 0,
             });
         }
